@@ -441,7 +441,7 @@ fn main() {
     res.rule = "case = history of ContinuityStore capability calls (17 capabilities, 7 append kinds, every selector / summary / stride / limit / dry_run / execute combination, unknown + malformed thread ids), sidecar faults (delete all caches, torn tail, empty) and restarts; events.jsonl is read before and after EVERY call; non-trivial = at least one appending call, one silent call and one fault or restart; distinct by hash of the call list".into();
     let n = if a.thorough() { 1500 } else { 110 };
     let mut r = Rng::new(a.seed);
-    let mut w = CaseWriter::new(&a.out, "Model.ContStore", "check_case_c02", "model_obs_c02", 12);
+    let mut w = CaseWriter::new(&a.out, "Model.Frames Model.Log Model.ContStore", "check_case_c02", "model_obs_c02", 12);
     let mut distinct = Distinct::default();
     let mut all: Vec<Vec<Call>> = sweep_cases();
     for i in 0..n {
